@@ -377,7 +377,7 @@ func checkC08(c *Ctx, r *Report) {
 		if f.Pkg == nil || f.Pkg.Pkg.Path() == Mod+recP {
 			continue
 		}
-		for _, call := range callsIn(f, recP+".UnmarshalEnvelope") {
+		for _, call := range callsInOnly(f, recP+".UnmarshalEnvelope") {
 			if strings.HasSuffix(f.Pkg.Pkg.Path(), controlsPkg) {
 				continue // the positive control (counted by the CTRL rule)
 			}
